@@ -6,6 +6,24 @@ COMMON_TB = [
     'correspondence harness (generators, canonical J encoding, exception->enum map, coqc case evaluation)',
 ]
 
+GRAPH_RULE = ('float models in converter normal form built with the flatbuffer object API: 1-3 '
+              'subgraphs/signatures, 1-3 inputs, 1-10 ops over the 21 supported builtins + 5 unsupported '
+              'ones, biased towards multi-consumer tensors, repeated operands (x*x), tensors exported and '
+              'consumed, constants shared by tensors / by several ops / across subgraphs, optional bias -1, '
+              'int32 operands; x recipes: shipped default recipes or 1-4 random rules (regex from the '
+              "model's own scopes: '.*', prefixes, anchored, without ';') x op selector x 13 configs "
+              '(static a8/a16 x w8/w4, dynamic, weight-only, fp16, no_quantize); statistics: 75% true '
+              "min/max from the check's own interpreter run, 25% synthetic (degenerate ranges). "
+              'non-trivial = at least one instruction other than NO_QUANTIZE; distinct = distinct instruction encoding')
+GRAPH_TB = [
+    'parameters enter Insts/Perform as equality classes computed by the harness with Python == (UniformQuantParams.__eq__), plus (kind, bits, has_data)',
+    'flatbuffers encoder/decoder, tensorflow.lite.tools.flatbuffer_utils and copy.deepcopy are exercised (interface E re-parses the returned bytes), not modelled',
+    'EMULATED_SUBCHANNEL (op replacement) is out of the model',
+]
+GRAPH_ASSUME = [
+    'input models are float models in converter normal form (unique tensor names, one producer per tensor, topological order)',
+]
+
 PROPS = {
     'C11': {
         'steps': [{'script': 'corr_recipe.py', 'timeout': 900,
@@ -69,5 +87,23 @@ PROPS = {
             'lattice as stated in the property (block-wise granularity, skip_checks and custom policies are outside it)',
             'runtime soundness of accepted pairs (interpreter prepares, outputs track float model) is validated by execution, not proved',
         ],
+    },
+    'C01': {
+        'steps': [{'script': 'corr_graph.py', 'timeout': 1500, 'timeout_thorough': 6000}],
+        'required_theorems': ['C01_insertion_preserves_wf', 'C01_quantize_tensor_preserves_wf'],
+        'rule': GRAPH_RULE,
+        'trusted_base': COMMON_TB + GRAPH_TB,
+        'assumptions': GRAPH_ASSUME + [
+            'C01 theorems are step-level (one transformation preserves well-formedness under the producer-position precondition); the composition over whole instruction lists is checked by correspondence E + the WF oracle on every generated case, not yet by a global invariant theorem',
+            'interpreter allocate/invoke is runtime behaviour: validated by execution in a forked child on every returned model quantized with real statistics'],
+    },
+    'C02': {
+        'steps': [{'script': 'corr_graph.py', 'timeout': 1500, 'timeout_thorough': 6000}],
+        'required_theorems': ['C02_insertion_rewires_only_listed', 'C02_signature_follows_output'],
+        'rule': GRAPH_RULE,
+        'trusted_base': COMMON_TB + GRAPH_TB,
+        'assumptions': GRAPH_ASSUME + [
+            'I/O names are compared on the erased graph (an inserted boundary tensor is named <x>_dequant by design); number/order/shapes/signature consistency are compared raw',
+            'op-replacement (EMULATED_SUBCHANNEL / BLOCKWISE) excluded as the property states'],
     },
 }
